@@ -3,10 +3,12 @@
 // QSBR word access and allocate/free is a scheduling point / observation.
 //
 // usage: olc_sched --init "k,k,.." --prog "<t0>|<t1>|.." [--bound N] [--max N] [--random N] [--seed S]
-//                  [--qs every|end] [--replay "c,c,.."] [--sample N] [--mode dfs|single]
+//                  [--qs every|end] [--replay "c,c,.."] [--sample N] [--mode dfs|single] [--snap 0|1|2]
 //   keys are hex numbers (uint64 keys); thread program = ';'-separated ops:
 //     G<k> get   I<k> insert   R<k> remove   S<f|r> scan   F<k><f|r> scan_from   Q<a>-<b> scan_range   q quiescent state
 // output per execution (always): X schedule / J init entries / C calls / V scans / P problems / Y
+//   with --snap 1|2 also: SNAP <clock> <canonical dump> for the initial tree and for every writer-quiescent moment (no
+//   write guard held by any thread) of the controlled part, and one SNAPSTAT line (see "writer-quiescent snapshots")
 //   with --sample N every N-th execution (and every execution with problems) also prints its event trace (E lines)
 #include <algorithm>
 #include <array>
@@ -55,6 +57,7 @@
 #include "olc_art.hpp"
 
 #include "dsched.hpp"
+#include "canon_dump.hpp"
 
 namespace {
 
@@ -237,6 +240,78 @@ void run_thread(exec_state& st, const std::vector<op>& prog, int tid, bool qs_ev
   unodb::this_thread().qsbr_pause();
 }
 
+// ---- writer-quiescent snapshots (C03, --snap) -----------------------------------
+// The hooks the controller installs are wrapped: the wrapper counts the write guards held by all controlled threads
+// (successful UPGRADE +1, WUNLOCK / WOBSOLETE -1; the root-pointer lock is an optimistic_lock like any other) and, whenever
+// the count returns to 0, dumps the whole tree from inside the observation callback of that unlock.  Exactly one
+// controlled thread runs at a time, so the unlocked read of the tree is safe; while the dump runs the thread-local flag
+// below makes both hook entry points return at once, so the dump's own loads are neither scheduling points nor events.
+// mode 1: a moment is dumped only if some protected field was stored to since the previous dump (nothing else can change
+// the tree: leaves are immutable once published, and publication is such a store); mode 2: every moment is dumped.
+struct snap_state {
+  int mode{0};
+  const db_t* db{nullptr};
+  std::atomic<unsigned long>* clock{nullptr};
+  dsched::controller* ctl{nullptr};
+  std::mutex mu;
+  long guards{0};
+  bool dirty{false};
+  bool off{false};  // the controller gave up (deadlock / budget): threads run freely, no more snapshots
+  bool negative{false};
+  unsigned long moments{0};
+  std::vector<std::pair<unsigned long, std::string>> snaps;
+};
+snap_state* g_snap = nullptr;
+thread_local bool tl_hooks_off = false;
+vk::sched_fn inner_sched = nullptr;
+vk::obs_fn inner_obs = nullptr;
+
+std::string snapshot_of(const db_t& db) {
+  tl_hooks_off = true;
+  std::string out;
+  try {
+    std::ostringstream os;
+    db.dump(os);
+    out = canon::canon_dump(os.str());
+  } catch (const std::exception& e) {
+    out = std::string("UNPARSABLE(") + e.what() + ")";
+    for (auto& c : out)
+      if (c == ' ' || c == '\n') c = '_';
+  }
+  tl_hooks_off = false;
+  return out;
+}
+
+void snap_sched(unsigned kind, const void* addr) {
+  if (tl_hooks_off) return;
+  if (inner_sched != nullptr) inner_sched(kind, addr);
+}
+
+void snap_obs(unsigned kind, const void* addr, std::uint64_t a, std::uint64_t b, std::uint64_t c) {
+  if (tl_hooks_off) return;
+  if (inner_obs != nullptr) inner_obs(kind, addr, a, b, c);
+  snap_state* s = g_snap;
+  if (s == nullptr || dsched::my_tid < 0) return;
+  const bool release = kind == vk::lock_unlock || kind == vk::lock_obsolete;
+  if (!release && kind != vk::cs_store && !(kind == vk::lock_cas && b == 1)) return;
+  std::lock_guard<std::mutex> l(s->mu);
+  if (kind == vk::cs_store) s->dirty = true;
+  if (kind == vk::lock_cas) ++s->guards;
+  if (!release) return;
+  --s->guards;
+  if (s->guards < 0) s->negative = true;
+  if (s->guards != 0 || s->off) return;
+  if (s->ctl->free_running()) {
+    s->off = true;
+    return;
+  }
+  ++s->moments;
+  if (s->mode == 1 && !s->dirty) return;
+  s->dirty = false;
+  const auto stamp = s->clock->fetch_add(1);
+  s->snaps.emplace_back(stamp, snapshot_of(*s->db));
+}
+
 const char* kname(unsigned k) {
   switch (k) {
     case vk::lock_load: return "RLOCK";
@@ -369,6 +444,7 @@ int main(int argc, char** argv) {
   unsigned long max_execs = 2000, nrandom = 0, sample = 0;
   std::uint64_t seed = 1;
   bool qs_every = true;
+  int snap_mode = 0;
   for (int i = 1; i + 1 < argc; i += 2) {
     const std::string k = argv[i], v = argv[i + 1];
     if (k == "--init") init_s = v;
@@ -381,6 +457,7 @@ int main(int argc, char** argv) {
     if (k == "--sample") sample = std::stoul(v);
     if (k == "--qs") qs_every = v == "every";
     if (k == "--mode") mode = v;
+    if (k == "--snap") snap_mode = std::stoi(v);
   }
   std::vector<std::uint64_t> init_keys;
   {
@@ -412,22 +489,46 @@ int main(int argc, char** argv) {
     // workers are registered here (uncontrolled), the main thread leaves QSBR for the duration of the execution
     std::vector<std::unique_ptr<unodb::qsbr_per_thread>> insts;
     for (std::size_t t = 0; t < progs.size(); ++t) insts.push_back(std::make_unique<unodb::qsbr_per_thread>());
+    snap_state snap;
+    if (snap_mode != 0) {
+      // the initial tree, before any controlled thread exists (no scheduler hook is installed yet)
+      snap.mode = snap_mode;
+      snap.db = st.db.get();
+      snap.clock = &st.clock;
+      snap.snaps.emplace_back(st.clock.fetch_add(1), snapshot_of(*st.db));
+    }
     unodb::this_thread().qsbr_pause();
     vk::obs_hook.store(nullptr);
 
     dsched::controller ctl(100000);
+    snap.ctl = &ctl;
     std::vector<std::function<void()>> bodies;
     for (std::size_t t = 0; t < progs.size(); ++t)
       bodies.push_back([&, t]() { run_thread(st, progs[t], static_cast<int>(t), qs_every); });
-    auto res = ctl.run(bodies, ch, [&insts, n = std::size_t{0}](std::function<void()> f) mutable {
-      auto* inst = insts[n++].release();
-      return std::thread([f, inst]() {
-        unodb::qsbr_per_thread::current_thread_instance.reset(inst);
-        f();
-        unodb::qsbr_per_thread::current_thread_instance.reset();
-      });
-    });
+    auto res = ctl.run(
+        bodies, ch,
+        [&insts, n = std::size_t{0}](std::function<void()> f) mutable {
+          auto* inst = insts[n++].release();
+          return std::thread([f, inst]() {
+            unodb::qsbr_per_thread::current_thread_instance.reset(inst);
+            f();
+            unodb::qsbr_per_thread::current_thread_instance.reset();
+          });
+        },
+        [&snap, snap_mode]() {
+          if (snap_mode == 0) return;
+          // wrap the controller's hooks (see "writer-quiescent snapshots"); run() removes the hooks at its end
+          inner_sched = vk::sched_hook.load();
+          inner_obs = vk::obs_hook.load();
+          g_snap = &snap;
+          vk::sched_hook.store(&snap_sched);
+          vk::obs_hook.store(&snap_obs);
+        });
+    g_snap = nullptr;
     ++execs;
+    if (snap_mode != 0 && !snap.off && (snap.guards != 0 || snap.negative) && !res.deadlock && !res.budget_exceeded)
+      st.problems.push_back("C14: write guards taken and released do not balance at the end of the execution (" +
+                            std::to_string(snap.guards) + " still held)");
     if (res.deadlock) st.problems.push_back("C14: deadlock - every unfinished thread waits in a spin loop");
     if (res.budget_exceeded) st.problems.push_back("C14: step budget exceeded (livelock)");
     // drain + post-execution sweep by a single controlled thread with a step budget (C14: no lock left held)
@@ -521,6 +622,10 @@ int main(int argc, char** argv) {
       for (std::size_t i = 0; i < s.seen.size(); ++i)
         l += " " + std::to_string(s.seen[i].first) + "=" + std::to_string(s.seen[i].second) + "@" + std::to_string(s.stamps[i]);
       std::puts(l.c_str());
+    }
+    if (snap_mode != 0) {
+      for (auto& sn : snap.snaps) std::printf("SNAP %lu %s\n", sn.first, sn.second.c_str());
+      std::printf("SNAPSTAT moments=%lu dumps=%zu complete=%d\n", snap.moments, snap.snaps.size(), snap.off ? 0 : 1);
     }
     if (want_trace || bad)
       for (auto& t : trace) std::puts(t.c_str());
